@@ -149,7 +149,7 @@ class RunDomain(DefaultDomain):
         if isinstance(func, ast.Attribute) and dotted(func.value) in ("result", "self.result", "actual_result"):
             m = func.attr
             return self._with_args(interp, call, st, fr, lambda s: self._result_event(m, call, s))
-        if d == "sys.exc_info" and st.get(fr.local("<handling>"), None) == USER_EXC:
+        if d == "sys.exc_info" and st.get("<handling>", None) == USER_EXC:
             return [val(("excinfo-user",), st)]
         if d in ("getattr", "isinstance", "sys.exc_info", "hasattr", "len", "id", "repr", "str"):
             return self._with_args(interp, call, st, fr, lambda s: [val(("bool",) if d in ("isinstance", "hasattr") else TOP, s)])
@@ -468,7 +468,7 @@ class KindRunDomain(RunDomain):
         if d == "getattr" and len(call.args) >= 2 and dotted(call.args[0]) == "self.case" and isinstance(call.args[1], ast.Constant) and call.args[1].value == "force_failure":
             return self._read_force(st, call.lineno)
         if d == "sys.exc_info":
-            handling = st.get(fr.local("<handling>"), TOP)
+            handling = st.get("<handling>", TOP)
             if not (isinstance(handling, tuple) and handling and handling[0] == "user"):
                 st = st.note((f"caught non-user exception {handling!r}"[:90], call.lineno))
             return [val(("excinfo", handling), st)]
